@@ -1,7 +1,9 @@
 package main
 
 import (
+	"math/big"
 	"math/rand/v2"
+	"strconv"
 	"strings"
 
 	"github.com/jub0bs/cors"
@@ -29,6 +31,9 @@ var hostPool = []string{
 	"xn--nxasmq6b.example.", "xn--a.example", "ab--c.example", "127.0.0.1", "127.0.0.2", "10.0.0.1", "192.168.1.1",
 	"255.255.255.255", "1.2.3.4", "169.254.169.254", "[::1]", "[2001:db8::1]", "[2001:db8:aaaa:1111::100]", "[::]",
 	"[fe80::1]", "[1:2:3:4:5:6:7:8]",
+	// public suffixes of four and five labels, and a registrable domain below one
+	"s3.dualstack.us-east-1.amazonaws.com", "execute-api.cn-north-1.amazonaws.com.cn", "cn-north-1.eb.amazonaws.com.cn",
+	"foo.s3.dualstack.us-east-1.amazonaws.com", "s3.cn-north-1.amazonaws.com.cn", "kobe.jp", "city.kobe.jp", "a.b.kobe.jp", "ck", "www.ck", "foo.ck",
 }
 
 var weirdHostPool = []string{
@@ -135,7 +140,8 @@ func (g *gen) host() string {
 }
 
 var portPool = []string{"", "", "", ":*", ":8080", ":8081", ":65535", ":1", ":9090", ":3000"}
-var weirdPortPool = []string{":", ":0", ":80", ":443", ":65536", ":99999", ":123456", ":080", ":8a", ":-1", ":*1", ":**", ": 80", ":８０"}
+var weirdPortPool = []string{":", ":0", ":80", ":443", ":65536", ":99999", ":123456", ":080", ":8a", ":-1", ":*1", ":**", ": 80", ":８０",
+	":18446744073709551616", ":18446744073709559696", ":4294975376", ":73616", ":9223372036854783888", ":00000000000000008080"}
 
 // pattern generates an origin pattern; mostly valid.
 func (g *gen) pattern() string {
@@ -177,6 +183,52 @@ func (g *gen) validPattern() string {
 		s += h + pick(g, portPool)
 		return s
 	}
+}
+
+// relatedPattern derives from an accepted-looking pattern one that shares structure with it: the
+// wildcard over its parent or over itself, a subdomain of it, the same host under another scheme or
+// port. Redundant and overlapping entries are where the shape of the tree depends on insertion order.
+func (g *gen) relatedPattern(pat string) string {
+	i := strings.Index(pat, "://")
+	if i < 0 || pat == "*" {
+		return pat
+	}
+	scheme, rest := pat[:i], pat[i+3:]
+	host, port := rest, ""
+	if strings.HasPrefix(rest, "[") {
+		if j := strings.IndexByte(rest, ']'); j >= 0 {
+			host, port = rest[:j+1], rest[j+1:]
+		}
+	} else if j := strings.LastIndexByte(rest, ':'); j >= 0 {
+		host, port = rest[:j], rest[j:]
+	}
+	isIP := strings.HasPrefix(host, "[") || (len(host) > 0 && host[0] >= '0' && host[0] <= '9' && !strings.ContainsAny(host, "abcdefghijklmnopqrstuvwxyz"))
+	wild := strings.HasPrefix(host, "*.")
+	base := strings.TrimPrefix(host, "*.")
+	switch k := g.n(8); {
+	case k == 0 && !isIP && !wild:
+		if j := strings.IndexByte(base, '.'); j >= 0 && j+1 < len(base) {
+			host = "*." + base[j+1:] // the wildcard that subsumes it
+		}
+	case k == 1 && !isIP && !wild:
+		host = "*." + base // the wildcard below it
+	case k == 2 && !isIP:
+		host = pick(g, []string{"a.", "api.", "b.a.", "x"}) + base // a host the wildcard subsumes (or a sibling)
+	case k == 3 && !isIP && wild:
+		host = "*." + pick(g, []string{"a.", "api."}) + base // nested wildcards
+	case k == 4:
+		scheme = pick(g, []string{"http", "https", "ws", "chrome-extension"})
+	case k == 5:
+		port = pick(g, portPool)
+	case k == 6:
+		scheme = pick(g, []string{"http", "https", "ws"})
+		port = pick(g, portPool)
+	default:
+		if wild {
+			host = base
+		}
+	}
+	return scheme + "://" + host + port
 }
 
 var junkSuffix = []string{"/", "/path", "?q=1", "?", "#f", " ", "\t", "\x00", "é", "/..", "@evil.com", ":80:80"}
@@ -248,6 +300,21 @@ func (g *gen) mutate(s string) string {
 	return s
 }
 
+// wrapTwins: decimal strings that a fixed-width integer parser without a length cap would take for
+// port p (p + 2^16, 2^32, 2^63, 2^64 and a multiple), and p itself with leading zeros.
+func wrapTwins(p int) []string {
+	var out []string
+	for _, sh := range []uint{16, 32, 63, 64} {
+		v := new(big.Int).Lsh(big.NewInt(1), sh)
+		v.Add(v, big.NewInt(int64(p)))
+		out = append(out, ":"+v.String())
+	}
+	v := new(big.Int).Lsh(big.NewInt(3), 64)
+	v.Add(v, big.NewInt(int64(p)))
+	out = append(out, ":"+v.String(), ":0"+strconv.Itoa(p), ":000000"+strconv.Itoa(p))
+	return out
+}
+
 // probesFor derives origins (request side) from a pattern string: itself and near misses.
 func (g *gen) probesFor(pat string) []string {
 	i := strings.Index(pat, "://")
@@ -290,12 +357,17 @@ func (g *gen) probesFor(pat string) []string {
 	switch port {
 	case "":
 		ports = []string{"", "", "", ":80", ":443", ":8080", ":65535", ":1"}
+		ports = append(ports, wrapTwins(0)...)
 	case ":*":
 		ports = []string{"", ":80", ":443", ":8080", ":65535", ":1", ":0", ":65536"}
+		ports = append(ports, wrapTwins(8080)...)
 	default:
 		ports = []string{port, port, port, "", port + "0", ":1", ":65535", ":80", ":443"}
 		if len(port) > 2 {
 			ports = append(ports, port[:len(port)-1])
+		}
+		if v, err := strconv.Atoi(port[1:]); err == nil && v >= 0 && v <= 65535 {
+			ports = append(ports, wrapTwins(v)...)
 		}
 	}
 	var out []string
@@ -314,29 +386,35 @@ func (g *gen) probesFor(pat string) []string {
 
 var methodPool = []string{"GET", "POST", "HEAD", "PUT", "put", "Put", "DELETE", "delete", "PATCH", "patch", "OPTIONS", "options",
 	"QUERY", "PURGE", "purge", "CHICKEN", "get", "post", "M-SEARCH"}
-var badMethodPool = []string{"CONNECT", "connect", "TRACE", "trace", "TRACK", "tRaCk", "", "bad method", "résumé", "a,b", "(", "GET "}
+var badMethodPool = []string{"TRAC\u212a", "trac\u212a", "CONNECT", "connect", "TRACE", "trace", "TRACK", "tRaCk", "", "bad method", "résumé", "a,b", "(", "GET "}
 
 var reqHdrPool = []string{"Authorization", "authorization", "AUTHORIZATION", "X-Foo", "x-foo", "X-FOO", "Content-Type", "content-type",
 	"X-Bar", "Accept", "X-Requested-With", "x-api-key", "Foo", "Foo-Bar", "a", "zz-top", "Cache-Control", "If-None-Match"}
-var badReqHdrPool = []string{"", "bad name", "Sec-Foo", "sec-fetch-mode", "Proxy-Authorization", "proxy-", "Origin", "origin", "Host", "Cookie",
+var badReqHdrPool = []string{"", "bad name", "Sec-Foo", "sec-", "Sec-", "PROXY-", "sec-a b", "Sec-\x00", "proxy-é", "Proxy-a,b", "sec- ",
+	// what Unicode case mapping (not byte-lowercasing) would take for special names: U+0130, U+212A, U+017F
+	"Author\u0130zation", "author\u0131zation", "Coo\u212aie", "\u017fec-foo", "Acce\u017f\u017f-Control-Allow-Origin", "Or\u0130gin", "V\u0130a", "sec-fetch-mode", "Proxy-Authorization", "proxy-", "Origin", "origin", "Host", "Cookie",
 	"Access-Control-Request-Method", "Access-Control-Allow-Origin", "access-control-allow-headers", "Access-Control-Max-Age",
 	"Content-Length", "Connection", "Dnt", "Via", "résumé", "a,b", "Set-Cookie", "Access-Control-Request-Private-Network", "Cookie2", "TE", "date"}
 
 var resHdrPool = []string{"X-Foo", "x-foo", "X-Bar", "X-Response-Time", "Content-Type", "content-length", "Cache-Control", "Expires",
 	"Last-Modified", "Pragma", "Content-Language", "ETag", "Link", "Authorization", "a", "Content-Encoding"}
-var badResHdrPool = []string{"", "bad name", "Set-Cookie", "set-cookie2", "Origin", "Access-Control-Request-Method", "Access-Control-Request-Headers",
+var badResHdrPool = []string{"", "bad name", "\u017fet-Cookie", "Set-Coo\u212aie", "Or\u0130gin", "Set-Cookie", "set-cookie2", "Origin", "Access-Control-Request-Method", "Access-Control-Request-Headers",
 	"Access-Control-Allow-Methods", "Access-Control-Allow-Headers", "Access-Control-Max-Age", "Access-Control-Allow-Private-Network",
 	"Access-Control-Request-Private-Network", "résumé", "a,b"}
 
 func (g *gen) list(pool, bad []string, star bool, maxLen int, badPct int) []string {
 	n := g.n(maxLen + 1)
+	longNames := len(pool) > 0 && &pool[0] != &methodPool[0]
 	var out []string
 	for i := 0; i < n; i++ {
 		switch {
 		case star && g.p(10):
 			out = append(out, "*")
-		case g.p(badPct):
+		case g.p(badPct) && len(bad) > 0:
 			out = append(out, pick(g, bad))
+		case longNames && g.p(4):
+			// names at and around the widths a narrowed length field would wrap at
+			out = append(out, "x-"+strings.Repeat(pick(g, []string{"a", "b"}), pick(g, []int{254, 255, 255, 256, 256, 257, 300, 511, 512, 65535, 65536})-2))
 		default:
 			out = append(out, pick(g, pool))
 		}
@@ -385,6 +463,14 @@ func (g *gen) config(validPct int) cors.Config {
 	}
 	if len(c.Origins) > 0 && g.p(15) {
 		c.Origins = append(c.Origins, c.Origins[g.n(len(c.Origins))])
+	}
+	if len(c.Origins) > 0 && g.p(25) {
+		for k := 1 + g.n(2); k > 0; k-- {
+			c.Origins = append(c.Origins, g.relatedPattern(pick(g, c.Origins)))
+		}
+		if g.p(50) {
+			g.r.Shuffle(len(c.Origins), func(i, j int) { c.Origins[i], c.Origins[j] = c.Origins[j], c.Origins[i] })
+		}
 	}
 	c.Methods = g.list(methodPool, badMethodPool, true, 4, badPct)
 	c.RequestHeaders = g.list(reqHdrPool, badReqHdrPool, true, 5, badPct)
